@@ -136,6 +136,12 @@ for _sid, _v in _R5.items():
         _w = _v["rc_guard_off"] if _v.get("rc_guard_off") is not None else _v["rc"]
         BENIGN_FIRST[_sid] = ("first run: FALSE ALARM (%s)%s" % (", ".join(_v["rules"]), "; refused with the inventory guard on" if _v["rc"] == 2 else "") if _w == 1 else
                               "first run: refused (%s)" % (_v["broken"][0].split("property=")[-1][:140] if _v["broken"] else "analysis broken"))
+_R6 = json.load(open(os.path.join(DST, "round6_first_verdicts.json"))) if os.path.exists(os.path.join(DST, "round6_first_verdicts.json")) else {}
+for _sid, _v in _R6.items():
+    if _v["rc"] != 0 or _v.get("rc_guard_off") not in (0, None):
+        _w = _v["rc_guard_off"] if _v.get("rc_guard_off") is not None else _v["rc"]
+        BENIGN_FIRST[_sid] = ("first run: FALSE ALARM (%s)%s" % (", ".join(_v["rules"]), "; refused with the inventory guard on" if _v["rc"] == 2 else "") if _w == 1 else
+                              "first run: refused (%s)" % (_v["broken"][0].split("property=")[-1][:140] if _v["broken"] else "analysis broken"))
 BENIGN_NOW = {
     "C12-h": "still refused: size() counts through std::count_if with a generic lambda whose body the fact extractor does not emit; everything else in the refactoring is followed",
     "C13-j": "still refused: C13-R7's literal clause does not follow the shared _consumeLiteral(\"null\") helper",
@@ -248,7 +254,8 @@ def main():
         }
         if benign:
             meta["history"] = (BENIGN_FIRST.get(sid) or "silent on the first run of the check") + ((" — " + BENIGN_NOW[sid]) if sid in BENIGN_NOW else
-                                                                                                        ("; silent after the round-4 rule work (rules follow helpers / derive roles by dataflow)" if sid in BENIGN_FIRST else ""))
+                                                                                                        ("; still refused (the rules do not follow this shape; no rule work was done for it)" if sid in BENIGN_FIRST and rc == 2 else
+                                                                                                         "; silent after the rule work of its round (rules follow helpers / derive roles by dataflow)" if sid in BENIGN_FIRST else ""))
             meta["initially_alarmed_or_refused"] = sid in BENIGN_FIRST
             meta["confirmed_by_me"]["how"] = ("tools/verify_seed.sh: scratch git worktree of /repo with the refactoring applied; the tests the agent named rebuilt and run against it; "
                                               "the agent's equivalence argument (equivalence.md) read against the diff; worktree removed afterwards")
